@@ -1,49 +1,49 @@
-\* generated by lib/slices.py from slice 'rgate' - do not edit
+\* generated by lib/slices.py from slice 'refuse_stored' - do not edit
 SPECIFICATION Spec
 VIEW view
 CHECK_DEADLOCK FALSE
 PROPERTY NoViolation
 ACTION_CONSTRAINT PrintEdge
 CONSTANTS
- Roles = {"any", "client", "server"}
- Vers = {"undet", "v311", "v50"}
+ Roles = {"server"}
+ Vers = {"v311", "v50"}
  Idws = {16}
  CheckProps = {"C05", "C06", "C07", "C08", "C10", "C11", "C12", "C13", "C14", "C15", "C16", "C17", "C19"}
  OptSets = {{}}
  RespTimeouts = {0}
- MaxConns = 1
- MaxHeld = 0
- MaxUsed = 2
- AppKinds = {}
- PeerKinds = {"auth", "disconnect", "pingreq", "pingresp", "puback", "pubcomp", "publish", "pubrec", "pubrel", "suback", "subscribe", "unsuback", "unsubscribe"}
- QosSet = {0, 1}
+ MaxConns = 2
+ MaxHeld = 1
+ MaxUsed = 1
+ AppKinds = {"publish"}
+ PeerKinds = {"puback"}
+ QosSet = {1}
  Topics = {"t1"}
  Aliases = {0}
  InPids = {1}
  ExtraPids = {9}
  Rcs = {0}
- Cleans = {TRUE}
+ Cleans = {FALSE}
  KAs = {0}
  ConnRMs = {99999}
  ConnTAMs = {99999}
  ConnMPSs = {99999}
- ConnSEIs = {99999}
- SPs = {FALSE}
- ConnackRcs = {0}
+ ConnSEIs = {10}
+ SPs = {FALSE, TRUE}
+ ConnackRcs = {0, 135}
  AckRMs = {99999}
  AckTAMs = {99999}
  AckMPSs = {99999}
  AckSEIs = {99999}
  SKAs = {99999}
- RogueHandshake = TRUE
+ RogueHandshake = FALSE
  PartialFrames = FALSE
  Intervals = {}
  Fire = FALSE
- Close = FALSE
+ Close = TRUE
  Erase = FALSE
  IdOps = FALSE
  Crash = FALSE
  Garbage = FALSE
- BadFrames = {"connect"}
+ BadFrames = {}
  SendWhileDisc = FALSE
- PeerWhileDisc = TRUE
+ PeerWhileDisc = FALSE
